@@ -138,7 +138,8 @@ pub fn identifies_code(res: &OpResult, c: u8, allow_message: bool) -> Result<(),
     let hex2 = format!("0x{c:x}");
     let hex3 = format!("{c:02x}");
     let hex4 = format!("0x{c:02x}");
-    if tokens.iter().any(|t| *t == dec || *t == hex2 || *t == hex4 || (c >= 10 && (*t == hex1 || *t == hex3))) {
+    // (a bare single hex digit is too easily something else; two digits - `05`, `0a` - are a code)
+    if tokens.iter().any(|t| *t == dec || *t == hex2 || *t == hex4 || *t == hex3 || (c >= 10 && *t == hex1)) {
         return Ok(());
     }
     if allow_message {
@@ -164,6 +165,8 @@ pub enum CardExpect {
     /// "bank card" by the statement, "first entry" by the anchored mechanism: Bank or Err, never Membership.
     BankOrErr,
     Membership(String),
+    /// This membership id, or an error.
+    MembershipOrErr(String),
     NoCard,
     /// Any error (never Ok).
     Err,
@@ -182,14 +185,14 @@ pub fn card_expect(kind: &CardKind) -> CardExpect {
                 if apps[0].aid.is_some() {
                     return CardExpect::Bank;
                 }
-                if apps.iter().any(|a| a.aid.is_some()) {
-                    return CardExpect::BankOrErr;
-                }
-                // applications listed, none with an id: not a membership card either
-                return CardExpect::Err;
+                // applications are listed but the first carries no id: "bank card" by the statement,
+                // "first entry with an id" by the anchored mechanism - Bank or an error, never Membership
+                return CardExpect::BankOrErr;
             }
             match uid {
                 None => CardExpect::Err,
+                // a UID of zero bytes: the empty membership id or "no usable data", whichever
+                Some(u) if u.is_empty() => CardExpect::MembershipOrErr(String::new()),
                 Some(u) => {
                     let mut m = u.to_uppercase();
                     if m.len() > 14 {
@@ -230,8 +233,12 @@ fn cleanup_ok(c: &CleanupSpec, dangling_reported: bool) -> Option<bool> {
     Some(matches!(c.eod.end, EndSpec::Completion | EndSpec::Abort(0xa0)))
 }
 
+/// The number a summary string stands for: its digits, whatever separators a format puts between them.
 fn num(s: &Option<String>) -> Option<u64> {
-    s.as_ref().and_then(|x| x.trim().parse::<u64>().ok())
+    s.as_ref().and_then(|x| {
+        let d: String = x.chars().filter(|c| c.is_ascii_digit()).collect();
+        d.parse::<u64>().ok()
+    })
 }
 
 pub fn judge_fault_free(plan: &ClientPlan, run: &ClientRun) -> Judged {
@@ -262,7 +269,9 @@ pub fn judge_fault_free(plan: &ClientPlan, run: &ClientRun) -> Judged {
     }
     if let Some(first) = run.ops.first() {
         if first.index == -1 && !first.result.is_ok() {
-            j.fail("*", "new_failed", "new", format!("Feig::new failed: {}", first.result.class()));
+            // Feig::new handed an error of its start-up configure to the caller instead of ignoring
+            // it: no property says which; there is no client to judge then
+            j.stats.hit("probe.new_failed");
             return j;
         }
     }
@@ -302,21 +311,21 @@ pub fn judge_fault_free(plan: &ClientPlan, run: &ClientRun) -> Judged {
                     j.fail("C07", "accepted_call_refused", "begin", format!("begin({token:?}) refused although the token is not open and {} < {max} are open", open.len()));
                     continue;
                 }
-                if pk.len() != 1 || pk[0].cf != (0x06, 0x22) {
+                // exactly one Reservation, and nothing that closes or books anything else (other, harmless
+                // commands - a status enquiry, say - are none of this property's business)
+                let n_res = pk.iter().filter(|p| p.cf == (0x06, 0x22)).count();
+                if n_res != 1 || pk.iter().any(|p| matches!(p.cf, (0x06, 0x23) | (0x06, 0x25) | (0x06, 0x50) | (0x06, 0x01))) {
                     j.fail("C07", "begin_request", "begin", format!("accepted begin must send exactly one Reservation, sent {:?}", pk.iter().map(|p| p.cf).collect::<Vec<_>>()));
                     continue;
                 }
-                let p = pk[0];
-                // C08: field wiring
+                let reqs: Vec<&ReqLog> = reqs.iter().filter(|r| (r.frame[0], r.frame[1]) == (0x06, 0x22)).collect();
+                let p = *pk.iter().find(|p| p.cf == (0x06, 0x22)).unwrap();
+                // C08: field wiring - the fields the statement names: configured amount and currency, and
+                // the reference the later commit is tied to (further optional fields are not pinned)
                 let tok = cp437(token).unwrap_or_default();
-                let okf = p.get_bcd(0x04) == Some(pre)
-                    && p.get_bcd(0x49) == Some(cur)
-                    && p.get_byte(0x19) == Some(0x40)
-                    && token_of(p) == Some((b"AC".to_vec(), tok.clone()))
-                    && bmp_set(p) == vec![0x04, 0x06, 0x19, 0x49]
-                    && p.pos.is_empty();
+                let okf = p.get_bcd(0x04) == Some(pre) && p.get_bcd(0x49) == Some(cur) && token_of(p) == Some((b"AC".to_vec(), tok.clone()));
                 if !okf {
-                    j.fail("C08", "reservation_fields", "begin", format!("Reservation {} does not carry amount {pre}, currency {cur}, payment type 40 and reference AC/{token:?} (and nothing else)", crate::conn::hex(&reqs[0].frame)));
+                    j.fail("C08", "reservation_fields", "begin", format!("Reservation {} does not carry amount {pre}, currency {cur} and reference AC/{token:?}", crate::conn::hex(&reqs[0].frame)));
                 }
                 let want_ok = res.issues_receipt();
                 match (&o.result, want_ok) {
@@ -365,7 +374,8 @@ pub fn judge_fault_free(plan: &ClientPlan, run: &ClientRun) -> Judged {
                         j.fail("C07", "refused_call_traffic", name, format!("{name}({token:?}) on a token that is not open caused traffic"));
                     }
                     match &o.result {
-                        OpResult::Err { kind: ErrKind::UnknownToken(t), .. } if t == token => {}
+                        // (the documented error is the variant; how it renders the token is not pinned)
+                        OpResult::Err { kind: ErrKind::UnknownToken(_), .. } => {}
                         other => j.fail("C07", "refused_call_result", name, format!("{name}({token:?}) on a token that is not open returned {} instead of UnknownToken({token:?})", other.class())),
                     }
                     continue;
@@ -410,11 +420,8 @@ pub fn judge_fault_free(plan: &ClientPlan, run: &ClientRun) -> Judged {
                     let OpSpec::Commit { amount, .. } = op else { unreachable!() };
                     let want = (pre as u128).saturating_sub(*amount as u128) as u64;
                     let tok = cp437(token).unwrap_or_default();
-                    let okf = p.get_bcd(0x04) == Some(want)
-                        && p.get_bcd(0x49) == Some(cur)
-                        && p.get_byte(0x19) == Some(0x40)
-                        && token_of(p) == Some((b"AC".to_vec(), tok))
-                        && bmp_set(p) == vec![0x04, 0x06, 0x19, 0x49, 0x87];
+                    // the fields the statement names: released amount, currency, receipt (checked above), reference
+                    let okf = p.get_bcd(0x04) == Some(want) && p.get_bcd(0x49) == Some(cur) && token_of(p) == Some((b"AC".to_vec(), tok));
                     if !okf {
                         j.fail(
                             "C08",
@@ -424,9 +431,10 @@ pub fn judge_fault_free(plan: &ClientPlan, run: &ClientRun) -> Judged {
                         );
                     }
                 } else {
-                    let okf = p.get_bcd(0x49) == Some(cur) && p.get_byte(0x19) == Some(0x40) && bmp_set(p) == vec![0x19, 0x49, 0x87];
+                    // the receipt is checked above; a currency, if the request names one, is the configured one
+                    let okf = p.get(0x49).is_none() || p.get_bcd(0x49) == Some(cur);
                     if !okf {
-                        j.fail("C08", "cancel_fields", "cancel", format!("PreAuthReversal {} must carry receipt {receipt}, currency {cur}, payment type 40", crate::conn::hex(&reqs[0].frame)));
+                        j.fail("C08", "cancel_fields", "cancel", format!("PreAuthReversal {} names a currency other than the configured {cur}", crate::conn::hex(&reqs[0].frame)));
                     }
                 }
                 let own_completed = reqs[0].completed == Some(true);
@@ -603,6 +611,8 @@ pub fn judge_fault_free(plan: &ClientPlan, run: &ClientRun) -> Judged {
                     (CardExpect::Bank, OpResult::Ok(OkVal::Bank)) => j.stats.hit("probe.card_bank"),
                     (CardExpect::BankOrErr, OpResult::Ok(OkVal::Bank)) | (CardExpect::BankOrErr, OpResult::Err { .. }) => j.stats.hit("probe.card_first_entry_without_id"),
                     (CardExpect::Membership(m), OpResult::Ok(OkVal::Membership(g))) if m == g => j.stats.hit("probe.card_membership"),
+                    (CardExpect::MembershipOrErr(m), OpResult::Ok(OkVal::Membership(g))) if m == g => j.stats.hit("probe.card_membership"),
+                    (CardExpect::MembershipOrErr(_), OpResult::Err { kind, .. }) if *kind != ErrKind::NoCardPresented => j.stats.hit("probe.card_unclassifiable"),
                     (CardExpect::NoCard, OpResult::Err { kind: ErrKind::NoCardPresented, .. }) => j.stats.hit("probe.card_timeout"),
                     (CardExpect::Err, OpResult::Err { kind, .. }) if *kind != ErrKind::NoCardPresented => j.stats.hit("probe.card_unclassifiable"),
                     (CardExpect::AbortErr(c), OpResult::Err { kind, .. }) if *kind != ErrKind::NoCardPresented => {
@@ -802,9 +812,9 @@ pub fn judge_under_faults(plan: &ClientPlan, run: &ClientRun) -> Judged {
                 }
                 let tok = cp437(token).unwrap_or_default();
                 for p in pk.iter().filter(|p| p.cf == (0x06, 0x22)) {
-                    let okf = p.get_bcd(0x04) == Some(pre) && p.get_bcd(0x49) == Some(cur) && p.get_byte(0x19) == Some(0x40) && token_of(p) == Some((b"AC".to_vec(), tok.clone()));
+                    let okf = p.get_bcd(0x04) == Some(pre) && p.get_bcd(0x49) == Some(cur) && token_of(p) == Some((b"AC".to_vec(), tok.clone()));
                     if !okf {
-                        j.fail("C08", "reservation_fields", "begin", format!("a Reservation sent by begin({token:?}) does not carry amount {pre}, currency {cur}, payment type 40 and reference AC/{token:?}"));
+                        j.fail("C08", "reservation_fields", "begin", format!("a Reservation sent by begin({token:?}) does not carry amount {pre}, currency {cur} and reference AC/{token:?}"));
                     }
                 }
                 if pk.iter().any(|p| matches!(p.cf, (0x06, 0x23) | (0x06, 0x25) | (0x06, 0x50))) {
@@ -826,7 +836,7 @@ pub fn judge_under_faults(plan: &ClientPlan, run: &ClientRun) -> Judged {
                         j.fail("C07", "refused_call_traffic", name, format!("{name}({token:?}) on a token that is not open caused traffic"));
                     }
                     match &o.result {
-                        OpResult::Err { kind: ErrKind::UnknownToken(t), .. } if t == token => {}
+                        OpResult::Err { kind: ErrKind::UnknownToken(_), .. } => {}
                         other => j.fail("C07", "refused_call_result", name, format!("{name}({token:?}) on a token that is not open returned {}", other.class())),
                     }
                     continue;
@@ -864,12 +874,12 @@ pub fn judge_under_faults(plan: &ClientPlan, run: &ClientRun) -> Judged {
                         if p.cf == (0x06, 0x23) {
                             let OpSpec::Commit { amount, .. } = op else { continue };
                             let want = (pre as u128).saturating_sub(*amount as u128) as u64;
-                            let okf = p.get_bcd(0x04) == Some(want) && p.get_bcd(0x49) == Some(cur) && p.get_byte(0x19) == Some(0x40) && token_of(p) == Some((b"AC".to_vec(), tok.clone()));
+                            let okf = p.get_bcd(0x04) == Some(want) && p.get_bcd(0x49) == Some(cur) && token_of(p) == Some((b"AC".to_vec(), tok.clone()));
                             if !okf {
                                 j.fail("C08", "commit_fields", if p.get_bcd(0x04) != Some(want) { "commit/amount" } else { "commit/other" }, format!("a PartialReversal of commit({token:?}, {amount}) must release {want} in currency {cur} with reference AC/{token:?}"));
                             }
-                        } else if p.get_bcd(0x49) != Some(cur) || p.get_byte(0x19) != Some(0x40) {
-                            j.fail("C08", "cancel_fields", "cancel", "a PreAuthReversal without the configured currency / payment type 40");
+                        } else if p.get(0x49).is_some() && p.get_bcd(0x49) != Some(cur) {
+                            j.fail("C08", "cancel_fields", "cancel", "a PreAuthReversal naming a currency other than the configured one");
                         }
                     }
                 }
@@ -941,7 +951,7 @@ pub fn judge_under_faults(plan: &ClientPlan, run: &ClientRun) -> Judged {
                 let want = card_expect(&card.kind);
                 let bad = match (&o.result, &want) {
                     (OpResult::Ok(OkVal::Bank), CardExpect::Bank | CardExpect::BankOrErr) => false,
-                    (OpResult::Ok(OkVal::Membership(m)), CardExpect::Membership(w)) => m != w,
+                    (OpResult::Ok(OkVal::Membership(m)), CardExpect::Membership(w) | CardExpect::MembershipOrErr(w)) => m != w,
                     (OpResult::Ok(_), _) => true,
                     (OpResult::Err { kind: ErrKind::NoCardPresented, .. }, CardExpect::NoCard) => false,
                     (OpResult::Err { kind: ErrKind::NoCardPresented, .. }, _) => true,
